@@ -5,10 +5,9 @@
 # In a scratch worktree of /repo's HEAD under /var/tmp (removed on exit) it applies,
 # one at a time,
 #   * the seam-introducing changes  — tools/premise_audit/selftest/*.diff (mine)
-#     and /verif/seeded/S09..S13 (independent sub-agents, round 2) — and expects
+#     and the /verif/seeded/S* whose meta.json says class "seam" (independent sub-agents) — and expects
 #     PREMISE-CHANGED from the static scan AND, separately, from the dynamic probe;
-#   * the input-level changes /verif/seeded/S01..S08 (independent sub-agents,
-#     round 1) and expects PREMISES-HOLD: they break a property without creating
+#   * the /verif/seeded/S* of class "input-level" (independent sub-agents) and expects PREMISES-HOLD: they break a property without creating
 #     anything a simulator could schedule or fail, so the not-applicable verdict
 #     still describes those trees (and nothing in this family can see them).
 # It starts with the unpatched worktree, which must give PREMISES-HOLD.
@@ -61,9 +60,10 @@ done
 for d in "$VERIF"/seeded/S*; do
   [ -f "$d/patch.diff" ] || continue
   n="$(basename "$d")"
-  case "$n" in
-    S0[1-8]-*) run_case "input-level: $n" "$d/patch.diff" hold hold ;;
-    *)         run_case "seam (independent): $n" "$d/patch.diff" changed changed ;;
+  case "$(sed -n 's/.*"class": "\([a-z-]*\)".*/\1/p' "$d/meta.json" | head -1)" in
+    input-level) run_case "input-level: $n" "$d/patch.diff" hold hold ;;
+    seam)        run_case "seam (independent): $n" "$d/patch.diff" changed changed ;;
+    *)           echo "selftest error: $d/meta.json has no class"; exit 2 ;;
   esac
 done
 [ $bad -eq 0 ] && echo "SELFTEST-OK" || echo "SELFTEST-UNEXPECTED"
